@@ -112,6 +112,14 @@ class AccSim:
         spec["switches"]["max_types"] = min(spec["switches"]["max_types"], 6)
         for b in spec["buffers"]:
             b["align"] = max(8, b["align"] or 8)
+        # unions that declare dependencies of their own (classes their methods use): the program is
+        # assembled once per target in this process, every time from the same class objects
+        sch = spec["schema"]
+        for ui, ty in enumerate(sch):
+            if ty["k"] == "uref" and rng.random() < 0.5:
+                cands = [i for i in range(ui) if sch[i]["k"] in ("struct", "array") and i not in ty["members"] and sum(1 for x in sch if x.get("name") == sch[i].get("name")) == 1]
+                if cands:
+                    ty["depends"] = [rng.choice(cands)]
         big = []
         for _ in range(rng.choice([1, 1, 2])):
             item = rng.choice(["Int8", "Float64", "Int32", "UInt16"])
